@@ -204,7 +204,10 @@ def _ca_inputs(st, interp):
     order = st.ghost.get("order", 0)
     ents = [[el, f_el], [ATOMS.sym(st, iso1), f_iso]]
     formula = VObj("FormulaStub", {"mass_fraction": VDict(ents)})
-    self = VObj((ACT, "Sample"), {"formula": formula, "mass": mass, "activity": VDict([])})
+    # the sample has been used before: results of an earlier calculation must not leak into this one
+    stale = VDict([[VObj("ActRec", {"id": "product of an earlier calculation"}), VList([st.fresh("stale0", z3.RealSort()), st.fresh("stale1", z3.RealSort())])]])
+    self = VObj((ACT, "Sample"), {"formula": formula, "mass": mass, "activity": stale, "environment": VObj("Env", {"id": "earlier"}),
+                                  "exposure": st.fresh("earlier_exposure", z3.RealSort()), "rest_times": VTuple([7])})
     ab1, ab2 = st.fresh("abundance1", z3.RealSort()), st.fresh("abundance2", z3.RealSort())
     st.assume(z3.And(ab1 > 0, ab2 > 0))
     C = dict(self=self, el=el.expr, iso1=iso1, iso2=iso2, f_el=f_el, f_iso=f_iso, mass=mass, ab1=ab1, ab2=ab2)
